@@ -69,6 +69,13 @@ def tasks(tier):
             for first in REDUCED:
                 out.append({"family": "caps-timing", "cfg": dict(cfg, script_prefix=[first]),
                             "entry": e, "bound": b, "weight": 5})
+    # attempt_timeout_s: an attempt cut short counts as a (TRANSIENT) failure like any other
+    for pc, mu, at in itertools.product([{}, {"T": 1}, {"T": 0}], [None, 1], [1, 2]):
+        for e in Q4:
+            cfg = dict(M=3, per_class=pc, max_unknown=mu, alphabet=REDUCED, attempt_timeout=at,
+                       durs=[0, 3], dur_free=True, loop=e.startswith("Async"),
+                       sleeper_async=e.startswith("Async"))
+            out.append({"family": "caps-attempt-timeout", "cfg": cfg, "entry": e, "bound": 0})
     # overlapping calls on one policy object: re-entrant (the operation of call A runs a whole
     # call B on the same policy) and two interleaved async calls
     for pc, mu, mode in itertools.product([{"T": 1}, {"T": 0, "U": 1}, {}], [None, 1],
